@@ -749,6 +749,62 @@ const (
 
 func allocBound(n int) uint64 { return allocBase + allocPerByte*uint64(n) }
 
+// allocBoundFor is the bound of one input: what decoding may allocate is proportional to the NUMBER OF
+// ITEMS it contains (headers of slices, interface words, growth of the containing slices) plus a small
+// multiple of its length - not to its length times the size of a slice header. A list of one long string
+// has to cost about its length.
+func allocBoundFor(in []byte) uint64 {
+	return allocBase + 4*uint64(len(in)) + allocPerByte*uint64(itemCount(in))
+}
+
+// itemCount walks the items of in (recursively, as far as they are well formed) and counts them.
+func itemCount(in []byte) int {
+	n := 0
+	var walk func(b []byte)
+	walk = func(b []byte) {
+		for len(b) > 0 {
+			n++
+			t := b[0]
+			var hdr, size uint64
+			switch {
+			case t < 0x80:
+				hdr, size = 0, 1
+			case t < 0xb8:
+				hdr, size = 1, uint64(t-0x80)
+			case t < 0xc0:
+				ll := uint64(t - 0xb7)
+				if uint64(len(b)) < 1+ll {
+					return
+				}
+				for _, x := range b[1 : 1+ll] {
+					size = size<<8 | uint64(x)
+				}
+				hdr = 1 + ll
+			case t < 0xf8:
+				hdr, size = 1, uint64(t-0xc0)
+			default:
+				ll := uint64(t - 0xf7)
+				if uint64(len(b)) < 1+ll {
+					return
+				}
+				for _, x := range b[1 : 1+ll] {
+					size = size<<8 | uint64(x)
+				}
+				hdr = 1 + ll
+			}
+			if size > uint64(len(b)) || hdr+size > uint64(len(b)) {
+				return
+			}
+			if t >= 0xc0 {
+				walk(b[hdr : hdr+size])
+			}
+			b = b[hdr+size:]
+		}
+	}
+	walk(in)
+	return n
+}
+
 // measure returns the smallest of three allocation deltas of f (noise can only add).
 func measure(f func()) uint64 {
 	best := ^uint64(0)
@@ -788,7 +844,7 @@ func allocBatch(scenario string, batch []allocCase, a *acc, maxSeen *uint64) {
 	a.evals += len(batch)
 	limit := ^uint64(0)
 	for i := range batch {
-		if b := allocBound(len(batch[i].input)); b < limit {
+		if b := allocBoundFor(batch[i].input); b < limit {
 			limit = b
 		}
 	}
@@ -804,14 +860,14 @@ func allocBatch(scenario string, batch []allocCase, a *acc, maxSeen *uint64) {
 		if got > *maxSeen {
 			*maxSeen = got
 		}
-		if got > allocBound(len(c.input)) {
+		if got > allocBoundFor(c.input) {
 			tag := "tag=none"
 			if len(c.input) > 0 {
 				tag = fmt.Sprintf("tag=%02x", c.input[0])
 			}
 			a.viols = append(a.viols, viol{Scenario: scenario, Oracle: "alloc-bound", CaseID: c.api + "/" + tag,
 				Detail: map[string]interface{}{"input": hex.EncodeToString(c.input), "len": len(c.input), "api": c.api,
-					"allocated": got, "bound": allocBound(len(c.input)), "kind": "alloc"}})
+					"allocated": got, "bound": allocBoundFor(c.input), "kind": "alloc"}})
 		}
 	}
 }
